@@ -111,7 +111,8 @@ class Resolver:
             if not all(cond):
                 stmts.append(None)
                 continue
-            if k in ('g', 'f', 'gc', 'fc') and it[1] in self.registers:
+            if (k in ('g', 'f', 'gc', 'fc') and it[1] in self.registers) \
+                    or (k in ('g', 'gc') and it[1].lower() in {r.lower() for r in self.registers}):   # register names ignore case
                 self.reject = self.reject or 'register name used as label'
             if k == 'g':
                 stmts.append(('label', self._define('g', 'global', it[1])))
@@ -276,6 +277,9 @@ def catalogue():
     C['rej:register-as-label'] = {'main.asm': [G('ra'), NOP]}
     C['rej:register-as-constant'] = {'main.asm': [GC('rb', 'v1'), NOP]}
     C['rej:register-as-reference'] = {'main.asm': [G('a'), R('ra')]}
+    C['rej:register-as-label-in-other-case'] = {'main.asm': [G('RA'), NOP]}
+    C['rej:register-as-label-in-mixed-case'] = {'main.asm': [G('a'), NOP, G('Rb'), NOP]}
+    C['rej:register-as-constant-in-other-case'] = {'main.asm': [GC('RB', 'v1'), NOP]}
     return C
 
 
